@@ -101,7 +101,9 @@ class Dev(object):
     a0, a1 = hdr[1], hdr[2]
     self.sent.append((cmd, a0, a1, data))
     sched.SCHED.log('dev-got', self, (cmd, a0, a1, data))
-    if cmd == 'OPEN':
+    if cmd == 'OPEN' and getattr(self, 'refuse_open', False):
+      self.push('CLSE', 0, a0)      # no such service: the OPEN is answered with CLSE
+    elif cmd == 'OPEN':
       rid = 100 + a0
       self.remote_of[a0] = rid
       self.push('OKAY', rid, a0)
@@ -467,6 +469,7 @@ def _run_open(case):
     a = conn.open_stream('a:', timeout_ms=5000)
     la, ra = a._transport.local_id, dev.remote_of[a._transport.local_id]
     dev.greet = 'hello'
+    dev.refuse_open = bool(case.get('refuse'))
     got = {'a': [], 'b': []}
 
     def reader_a():
@@ -482,6 +485,12 @@ def _run_open(case):
     def opener():
       try:
         b = conn.open_stream('b:', timeout_ms=600000)
+        if case.get('refuse'):
+          # "a CLSE reply means the service is unavailable and yields no stream": None, not an exception and not a stream
+          if b is not None:
+            facts.append('X:refused-open-returned-a-stream')
+          got['b'].append('hello')
+          return
         if b is None:
           facts.append('X:open-refused')
           return
@@ -685,6 +694,7 @@ def gen_cases(rng, tier):
   for i in range(150 if quick else 3000):
     r = rng.derive('open%d' % i)
     cases.append({'kind': 'open', 'na': r.choice([2, 4, 6]), 'rseed': r.getrandbits(32)})
+    cases.append({'kind': 'open', 'na': r.choice([2, 4, 6]), 'rseed': r.getrandbits(32), 'refuse': True})
   for when in ('before-close', 'after-close', 'after-open'):
     for stale in (['W'], ['Z'], ['W', 'W'], ['W', 'Z']):
       for pre in (0, 1, 3):
